@@ -44,7 +44,12 @@ def build_suite(n):
     corr.SPDRIVER = os.path.join(MC, 'spdriver')
     pairs = fam_runner_pairs()
     fams = sorted({f for _, f in pairs})
-    scen_by_fam = {f: scen.generate(f, 'mc', n) for f in fams}
+    scen_by_fam = {}
+    for f in fams:
+        try:
+            scen_by_fam[f] = scen.generate(f, 'mc', n)
+        except NotImplementedError:      # corpus-only family
+            scen_by_fam[f] = []
     model = {}
     for f in fams:
         if any(cmp for (r, ff), users in pairs.items() if ff == f for _, cmp in users):
